@@ -1,6 +1,6 @@
 import Rangers.Props.C04
 import Rangers.Proofs.JournalRootFinal
-import Rangers.Proofs.JournalRootSteps2
+import Rangers.Proofs.JournalRootSteps3
 /-!
 # C04 — root clause, proved for regions that touch account objects
 
@@ -35,6 +35,7 @@ def StepOkR (c : Cfg) (s : ADB) : Op → Prop
   | .subBal a _ => DataOk s c.tok (c.balKey a)
   | .transfer a b n => TransferOk c s a b n
   | .qBal a => BalReadOk c s a
+  | .qAllRefund a => AllRefundOk s a
   | .qData a k => ReadOk s a k
   | .qExist _ | .qEmpty _ | .qNonce _ | .qSuicided _ | .qCodeSize _ | .qCodeHash _ => True
   | .snapshot | .revert _ => True
@@ -67,6 +68,7 @@ theorem step_revAtR (c : Cfg) (hp : c.p002 = true) (s : ADB) (op : Op) (hc : Ste
   | subBal a n => exact revAtR_subBalance hp s a n hc
   | transfer a b n => exact revAtR_transfer hp s a b n hc
   | qBal a => exact revAtR_getBalance s a hc
+  | qAllRefund a => exact revAtR_getAllRefund s a hc
   | qData a k => exact revAtR_qData s a k hc
   | qExist a => exact revAtR_qExist s a
   | qEmpty a => exact revAtR_qEmpty s a
@@ -104,7 +106,7 @@ def sWarm : ADB := setBalance c0 (setData (setNonce ADB.empty A1 1) A1 [0x6b] [7
 
 def regionR : List Op :=
   [.setData A1 [0x6b] [9], .snapshot, .setNonce A1 5, .setData A1 [0x6c] [1], .incNonce A1, .revert 1,
-.qData A1 [0x6c], .addBal A1 3, .transfer A1 [0xa2] 2, .qBal A1, .subBal A1 1, .addRefund 3, .alSlot A1 (toHash [1]), .setData A1 [0x6b] [], .create [0xa2], .setNonce [0xa2] 4]
+.qData A1 [0x6c], .addBal A1 3, .transfer A1 [0xa2] 2, .qBal A1, .subBal A1 1, .qAllRefund A1, .addRefund 3, .alSlot A1 (toHash [1]), .setData A1 [0x6b] [], .create [0xa2], .setNonce [0xa2] 4]
 
 example : EndOk sWarm ∧ sWarm.revisions = [] ∧ RunOk (StepOkR c0) c0 (snapshot sWarm).1 regionR ∧
     EndOk (revert c0 (run c0 (snapshot sWarm).1 regionR) (snapshot sWarm).2) := by decide
